@@ -13,6 +13,7 @@ from qsim import core, workload
 from qsim.clocks import parse_ts, fmt_ts
 from qsim.core import vkey, tkey, cand_key
 from qsim.models import derivation
+from qsim.models import calendar as cal
 
 PROPERTIES = ["C14", "C15"]
 SIM_TIME_UNIT = "scheduler decisions (scores handed out)"
@@ -41,7 +42,9 @@ ASSUMPTIONS = {
             "is out of scope ('what the rules license')",
             "texts are already normalised and label-free so that pre-processing is the identity",
             "texts whose derivation closure exceeds the state cap are skipped and counted",
-            "latent-time anchoring is off: it is post-processing outside the rule base"],
+            "latent-time anchoring is post-processing outside the rule base: runs with it on are "
+            "compared modulo a reference model of that step (qsim/models/calendar.py: latent), "
+            "values only"],
     "C14": ["values are compared by oracle-side keys (all fields / both ends / amount+unit)",
             "both entry points get scorers built from the same score script"],
 }
@@ -113,11 +116,25 @@ class Snapshots:
         self.saved = dict(rules)
         sink, trace = self.sink, self.trace
 
+        seen = self.seen = {}
+
         def mk(name, fn):
             def snap(ts, *args):
                 before = [(vkey(a), a.mstart, a.mend) for a in args]
+                # a value, once produced, never changes: compare with what this very object
+                # looked like when a rule first saw or produced it
+                for a, b in zip(args, before):
+                    old = seen.get(id(a))
+                    if old is not None and old[0] is a and old[1] != b[0]:
+                        sink.append(("stale", name, old[1], b[0]))
+                        seen[id(a)] = (a, b[0])
                 res = fn(ts, *args)
                 after = [(vkey(a), a.mstart, a.mend) for a in args]
+                for a, b in zip(args, after):
+                    if id(a) not in seen:
+                        seen[id(a)] = (a, b[0])
+                if res is not None and id(res) not in seen:
+                    seen[id(res)] = (res, vkey(res))
                 trace.append(name if res is not None else "~" + name)
                 for b, a_ in zip(before, after):
                     if b[0] != a_[0]:
@@ -158,8 +175,34 @@ def _closure(lib, text, ts, rml, cap):
     return _CLOSURES[k]
 
 
+def strip_labels(text):
+    """The text the search really works on: '#label' tokens removed (the blanks around them
+    stay), then stripped. Hand-written scan, independent of the library's regex."""
+    out = []
+    i, n = 0, len(text)
+    ok = set("abcdefghijklmnopqrstuvwxyzABCDEFGHIJKLMNOPQRSTUVWXYZ0123456789_-")
+    while i < n:
+        if text[i] == "#" and i + 1 < n and text[i + 1] in ok:
+            j = i + 1
+            while j < n and text[j] in ok:
+                j += 1
+            i = j
+            continue
+        out.append(text[i])
+        i += 1
+    return "".join(out).strip()
+
+
 def _normalised(lib, text):
-    return lib["ctparse"]._preprocess_string(text) == text and "#" not in text and text != ""
+    """pre-processing must be the identity (separators are C11's business); labels are fine"""
+    return lib["ctparse"]._preprocess_string(text) == text and text != "" \
+        and strip_labels(text) != ""
+
+
+def _aslist(v):
+    if isinstance(v, tuple):
+        return [_aslist(x) for x in v]
+    return v
 
 
 def _stream(lib, case, run, kw_extra=None):
@@ -226,21 +269,25 @@ def execute(case):
     probes = {"closure_too_big": 0, "not_normalised": 0, "library_raised": 0,
               "arg_span_widened": 0, "post_yield_snapshots_compared": 0,
               "re_emitted_with_higher_score": 0, "ties_at_max": 0, "empty_stream": 0,
-              "step_budget_exceeded": 0, "model_rule_error": 0}
+              "step_budget_exceeded": 0, "model_rule_error": 0, "text_with_labels": 0,
+              "text_with_separators": 0}
     n_eval = 0
     sim_time = 0
 
     def viol(oracle, cls, detail):
         V.append({"oracle": oracle, "class": cls, "detail": detail})
 
-    if not _normalised(lib, text):
+    if prop == "C15" and not _normalised(lib, text):
         probes["not_normalised"] += 1
         return {"viol": V, "digest": core.digest(["skip", text]), "n_eval": 0, "keys": [],
                 "probes": probes, "faults": faults}
     ts = parse_ts(case["ts"])
     clo = None
     if prop == "C15":
-        clo = _closure(lib, text, ts, case.get("relative_match_len", 1.0), case["cap"])
+        inner = strip_labels(text)
+        if inner != text:
+            probes["text_with_labels"] += 1
+        clo = _closure(lib, inner, ts, case.get("relative_match_len", 1.0), case["cap"])
         if isinstance(clo, str):
             probes["closure_too_big"] += 1
             return {"viol": V, "digest": core.digest(["big", text]), "n_eval": 0, "keys": [],
@@ -283,7 +330,12 @@ def execute(case):
                 keys.append(core.short([text, fired]))
             # ---- pure: arguments
             for kind, name, b, a_ in r["sink"]:
-                if kind == "value":
+                if kind == "stale":
+                    viol("C15.pure-arguments", "changed-between-rule-applications",
+                         "text=%r sched=%s: a value was %s when a rule produced / first saw it "
+                         "and is %s when %s is applied to it later (edited in place outside a "
+                         "rule application)" % (text, tag, b, a_, name))
+                elif kind == "value":
                     viol("C15.pure-arguments", "rule:" + name,
                          "text=%r sched=%s: %s changed the value of an argument it was applied "
                          "to: %s -> %s" % (text, tag, name, b, a_))
@@ -299,11 +351,37 @@ def execute(case):
                      "text=%r sched=%s: candidate #%d was %s when yielded and is %s later"
                      % (text, tag, i, snaps[i], cand_key(r["cands"][i])))
             # ---- sound
+            lat = bool(run.get("latent"))
+            if lat:
+                # latent anchoring is post-processing outside the rule base: compare modulo
+                # the reference model of that step (values only; anchored values are fresh
+                # objects without span)
+                L = lambda v: tkey(cal.latent(_aslist(v), ts))
+                derivable_values = {L(v) for v in clo.derivable_values}
+                terminal_values = {L(v) for v in clo.terminal_values}
+            else:
+                derivable_values, terminal_values = clo.derivable_values, clo.terminal_values
             for i, (c, s) in enumerate(zip(r["cands"], snaps)):
                 if c is None or i in r["changed"]:
                     continue
                 vk = tkey(s[0])
                 ek = (vk, s[1], s[2])
+                if lat:
+                    if vk not in derivable_values:
+                        viol("C15.sound", "underivable-value",
+                             "text=%r sched=%s: streamed %s is not the (latent-anchored) value "
+                             "of any derivation (closure: %d states)"
+                             % (text, tag, s[0], clo.n_states))
+                        continue
+                    try:
+                        rp = clo.replay(c.production)
+                    except derivation.TooBig:
+                        continue
+                    if rp is not None and vk not in {L(e[0]) for e in rp}:
+                        viol("C15.sound-trace", "trace-does-not-derive",
+                             "text=%r sched=%s: reported production %s does not derive %s "
+                             "(modulo latent anchoring)" % (text, tag, s[3], s[0]))
+                    continue
                 if vk not in clo.derivable_values:
                     viol("C15.sound", "underivable-value",
                          "text=%r sched=%s: streamed %s is not derivable by any rule sequence "
@@ -335,7 +413,7 @@ def execute(case):
             # ---- complete (no depth limit, no timeout)
             if run["depth"] == 0:
                 streamed = {tkey(s[0]) for s in snaps if s is not None}
-                missing = clo.terminal_values - streamed
+                missing = terminal_values - streamed
                 for mv in sorted(missing, key=repr)[:3]:
                     viol("C15.complete", "terminal-missing:" + str(mv[0]),
                          "text=%r sched=%s: fully reduced derivation result %s was never "
@@ -355,6 +433,10 @@ def execute(case):
         if prop == "C14":
             if len(snaps) >= 2:
                 keys.append(core.short([text, [s[0] for s in snaps]]))
+            if lib["ctparse"]._preprocess_string(text) != text:
+                probes["text_with_separators"] += 1
+            if "#" in text:
+                probes["text_with_labels"] += 1
             # ---- finite
             for c, s in zip(r["cands"], snaps):
                 if c is None:
@@ -462,7 +544,17 @@ def _texts(rng, n, prop="C15"):
             if rng.random() < 0.5:
                 t = rng.choice(workload.DATES + workload.DOWS + ["at", "from"]) + " " + t
         t = " ".join(t.lower().split()) if rng.random() < 0.9 else " ".join(t.split())
-        if t and "#" not in t and len(t) <= (40 if prop == "C15" else 60):
+        toks = t.split(" ")
+        if rng.random() < 0.18 and toks:
+            # a label somewhere (start, between two expression tokens, end)
+            toks.insert(rng.randint(0, len(toks)), rng.choice(["#work", "#fun", "#a-b", "#x1"]))
+            t = " ".join(toks)
+        if prop == "C14" and rng.random() < 0.2 and len(toks) > 1:
+            # separators that pre-processing rewrites
+            seps = [", ", "; ", " (", ") ", " \u2013 ", "\u2014", ",", " ,", "\t", "  "]
+            t = toks[0] + "".join(rng.choice(seps if rng.random() < 0.5 else [" "]) + x
+                                  for x in toks[1:])
+        if t and len(t) <= (44 if prop == "C15" else 64):
             out.append(t)
     return out
 
@@ -483,6 +575,9 @@ def plan(prop, tier, seed):
                 runs.append({"sched": s, "depth": rng.choice([1, 2, 3, 10])})
             for s in rng.sample(scheds, 2 if quick else 4):
                 runs.append({"sched": s, "depth": 0, "skip_prefilter": True})
+            # the default configuration anchors bare clock times after scoring
+            for s in rng.sample(scheds, 3 if quick else 6):
+                runs.append({"sched": s, "depth": rng.choice([0, 0, 10]), "latent": True})
         else:
             for s in scheds:
                 runs.append({"sched": s, "depth": rng.choice([0, 0, 1, 3, 10]),
